@@ -2,6 +2,7 @@ package psim
 
 import (
 	"fmt"
+	"os"
 	"strings"
 	"testing/synctest"
 
@@ -472,7 +473,7 @@ func c12System(c *Ctx) {
 	}
 	// a third of the system cases run in cluster mode: jobs go through the
 	// (simulated) scheduler's submit command under --maxjobs
-	cluster := c.Plan.Draw(3) == 0
+	cluster := c.Plan.Draw(3) == 0 || os.Getenv("VERIF_C12_RESTART") != ""
 	maxJobs := 1 + c.Plan.Draw(4)
 	if cluster {
 		cfg.JobMode = "sge"
@@ -496,6 +497,38 @@ func c12System(c *Ctx) {
 		cfg.Overrides = ov
 		c.Res.Probes["runs-with-resource-overrides"]++
 	}
+	if cluster && c.Plan.Draw(2) == 0 {
+		// wide stages: many chunks become ready at once and compete for the slots
+		prog = templateChunksProg(c.Plan)
+		cfg.Prog = prog
+		c.Res.Probes["wide-split-template"]++
+	}
+	if cluster && (c.Plan.Draw(2) == 0 || os.Getenv("VERIF_C12_RESTART") != "") {
+		// many chunks for few slots: at the kill some wait locally for a slot while
+		// others already sit in the cluster's queue
+		cfg.FCfg.MaxChunks = 3 + c.Plan.Draw(5)
+		// mrp is killed and restarted while jobs sit in the cluster's queue or run:
+		// the new instance has to count them against --maxjobs again
+		cfg.Crashes = []CrashSpec{{Inc: 1, AtGate: 60 + c.Plan.Draw(300), Kind: "kill"}}
+		if c.Plan.Draw(3) > 0 {
+			// ... at a moment when every slot is taken, so that further jobs of the
+			// pipestance are waiting for one
+			cfg.Crashes[0].When = func(r *Run) bool {
+				live := 0
+				for _, cj := range r.Cluster {
+					if cj.Live() {
+						live++
+					}
+				}
+				return live >= maxJobs
+			}
+		}
+		cfg.Restarts = 1
+		// long jobs: what the first instance submitted is still there when the
+		// second one starts submitting
+		cfg.AllSlow = c.Plan.Draw(3) > 0
+		c.Res.Probes["cluster-mode-runs-with-restart"]++
+	}
 	swarmSched(c.Plan, cfg)
 	cfg.WJob = 1 // jobs are slow relative to mrp: reservations overlap
 	if cfg.WTime == 0 {
@@ -506,6 +539,7 @@ func c12System(c *Ctx) {
 	maxThreads, maxMem := 0.0, 0.0
 	maxLive := 0
 	var viol []Violation
+	kfSeen, realSeen := false, false
 	r := c.RunOnce(cfg, func(r *Run) {
 		if weather {
 			r.PreStart = func() { vos.WeatherHook = weatherFor(salt) }
@@ -531,17 +565,60 @@ func c12System(c *Ctx) {
 				viol = append(viol, Violation{"C12", "local-cores-exceeded", fmt.Sprintf("%d live local jobs reserve %.2f threads in total, --localcores=%d", n, th, cores), r.Steps})
 			}
 			if cluster {
+				// (a job which has recorded its completion or failure no longer counts,
+				// even if its process is still winding down)
+				busy := func(cj *ClusterJob) bool { return cj.Live() && (cj.Rec == nil || cj.Rec.EndSeq == 0) }
 				live := 0
 				for _, cj := range r.Cluster {
-					if cj.Live() {
+					if busy(cj) {
 						live++
 					}
 				}
 				if live > maxLive {
 					maxLive = live
 				}
-				if live > maxJobs && len(viol) == 0 {
-					viol = append(viol, Violation{"C12", "maxjobs-exceeded-in-cluster-mode", fmt.Sprintf("%d jobs are queued or running on the cluster, --maxjobs=%d", live, maxJobs), r.Steps})
+				if live > maxJobs && !realSeen {
+					// jobs of an earlier incarnation which were already running when
+					// this one attached: martian counts re-attached jobs only while
+					// they are still queued (known finding KF-C12-1)
+					// "when this one attached": the new instance scans the job states at
+					// the end of Runtime.reattachToPipestance; the next thing cmd/mrp does
+					// is to open the pipestance's _log
+					attached := 1 << 60
+					for _, ev := range vos.W.Events {
+						if ev.Pid == r.Mrp.Pid && ev.Path == "ps/_log" {
+							attached = ev.Seq
+							break
+						}
+					}
+					old := 0
+					for _, cj := range r.Cluster {
+						if busy(cj) && cj.Inc < r.Inc && cj.Rec != nil && cj.Rec.StartSeq < attached {
+							old++
+						}
+					}
+					if live-old <= maxJobs {
+						if kfSeen {
+							return
+						}
+						kfSeen = true
+						viol = append(viol, Violation{"C12", "maxjobs-exceeded-by-jobs-running-since-before-restart", fmt.Sprintf("%d jobs are queued or running on the cluster, --maxjobs=%d; %d of them were submitted by an earlier mrp and already running when this one attached", live, maxJobs, old), r.Steps})
+					} else {
+						realSeen = true
+						var desc []string
+						for _, cj := range r.Cluster {
+							if busy(cj) {
+								d := fmt.Sprintf("#%s by mrp#%d", cj.Id, cj.Inc)
+								if cj.Rec != nil {
+									d += fmt.Sprintf(" %s:%s started@%d %s", cj.Rec.Key(), cj.Rec.Phase, cj.Rec.StartSeq, cj.Rec.Outcome)
+								} else {
+									d += " queued"
+								}
+								desc = append(desc, d)
+							}
+						}
+						viol = append(viol, Violation{"C12", "maxjobs-exceeded-in-cluster-mode", fmt.Sprintf("%d jobs are queued or running on the cluster, --maxjobs=%d (%d of them running since before the restart; this mrp attached at seq %d): %s", live, maxJobs, old, attached, strings.Join(desc, "; ")), r.Steps})
+					}
 				}
 			}
 			if mg > float64(mem)+1e-9 && len(viol) == 0 {
@@ -582,7 +659,11 @@ func c12System(c *Ctx) {
 				fmt.Sprintf("with --localcores=%d --localmem=%d a job's request was refused instead of being clamped to the limit: %s", cores, mem, lastLines(o, 6)), r.Steps})
 		}
 	default:
-		if len(r.Panics) == 0 {
+		if len(cfg.Crashes) > 0 {
+			// whether a killed and restarted pipestance finishes is C05's question
+			// (known finding KF-C05-2 lives in cluster mode); here only the limits
+			c.Res.Notes = append(c.Res.Notes, "restarted cluster run ended as "+r.Class())
+		} else if len(r.Panics) == 0 {
 			c.Res.Violations = append(c.Res.Violations, Violation{"C12", "pipestance-stalled",
 				fmt.Sprintf("with --localcores=%d --localmem=%d the pipestance did not finish (%s): %s", cores, mem, r.Class(), lastLines(r.outBuf.String(), 6)), r.Steps})
 		}
@@ -595,7 +676,11 @@ func c12System(c *Ctx) {
 }
 
 func c12Case(c *Ctx) {
-	switch c.Plan.Draw(4) {
+	sel := c.Plan.Draw(4)
+	if os.Getenv("VERIF_C12") == "system" { // experiments: system tier only
+		sel = 3
+	}
+	switch sel {
 	case 0, 1:
 		c.Res.Violations = append(c.Res.Violations, semResourceCase(c)...)
 		c.Res.Class = "semaphore"
@@ -618,4 +703,33 @@ func c12Case(c *Ctx) {
 
 func init() {
 	Profiles["C12"] = c12Case
+}
+
+// templateChunksProg: two or three splitting stages in a row (and one side by side),
+// each with many chunks: what competes for job slots are the chunks of one fork.
+func templateChunksProg(plan *Tape) *Prog {
+	p := &Prog{}
+	intT := Ty{Base: "int"}
+	ref := func(call string, path ...string) *Expr { return &Expr{Kind: ERef, Call: call, Path: path} }
+	self := func(path ...string) *Expr { return &Expr{Kind: ERef, Self: true, Path: path} }
+	mk := func(name string) *StageDef {
+		return &StageDef{Name: name, SrcKind: "comp", Ins: []Field{{"n", intT}}, Outs: []Field{{"total", intT}},
+			Split: true, ChunkIns: []Field{{"c0", intT}}, ChunkOuts: []Field{{"part", intT}}}
+	}
+	p.Stages = []*StageDef{mk("WIDE_A"), mk("WIDE_B"), mk("WIDE_C")}
+	top := &PipelineDef{Name: "TOPW", Ins: []Field{{"n", intT}}}
+	top.Calls = []*CallDef{
+		{Callee: "WIDE_A", Id: "WIDE_A", Binds: []Bind{{"n", self("n"), false}}},
+		{Callee: "WIDE_B", Id: "WIDE_B", Binds: []Bind{{"n", ref("WIDE_A", "total"), false}}},
+	}
+	top.Outs = []Field{{"total", intT}}
+	top.Ret = []Bind{{"total", ref("WIDE_B", "total"), false}}
+	if plan.Draw(2) == 0 {
+		top.Calls = append(top.Calls, &CallDef{Callee: "WIDE_C", Id: "WIDE_C", Binds: []Bind{{"n", self("n"), false}}})
+		top.Outs = append(top.Outs, Field{"side", intT})
+		top.Ret = append(top.Ret, Bind{"side", ref("WIDE_C", "total"), false})
+	}
+	p.Pipelines = []*PipelineDef{top}
+	p.Top = &CallDef{Callee: "TOPW", Id: "TOPW", Binds: []Bind{{"n", &Expr{Kind: ELit, Val: int64(plan.Draw(1000)), T: intT}, false}}}
+	return p
 }
